@@ -335,7 +335,9 @@ def _hard_cut(z, y_soft, tau, threshold):
     if 0.0 < threshold < 1.0:
         cut = tau * (math.log(threshold) - math.log1p(-threshold))
         return (z > cut).float()
-    return (y_soft > threshold).float()
+    # the soft sample lies strictly between 0 and 1 (its rounded value may be exactly 0 or 1): a threshold <= 0 is always
+    # exceeded, a threshold >= 1 never
+    return torch.full_like(y_soft, 1.0 if threshold <= 0.0 else 0.0, dtype=torch.float32)
 
 def _check_temperature(tau):
     # tau = 0 gives NaN, tau < 0 prefers the least likely gate, NaN propagates: none of them is a temperature
